@@ -18,6 +18,7 @@ import (
 	"verif/harness/goast"
 	"verif/harness/jv"
 	"verif/harness/model"
+	"verif/harness/oracle"
 	"verif/harness/sgen"
 )
 
@@ -150,11 +151,12 @@ func defaultAllowed(c *core.Ctx, n *model.Node) bool {
 		}
 		return false
 	}
-	if n.Nullable && no("defaults.on_nullable") {
-		return false
-	}
 	rn := n.Resolve()
 	if rn == nil {
+		return false
+	}
+	// the finding is about pointer fields; a nullable array is a slice and takes its default
+	if n.Nullable && rn.Kind != model.KArray && no("defaults.on_nullable") {
 		return false
 	}
 	switch rn.Kind {
@@ -317,6 +319,15 @@ func addCollidingDefs(t *rapid.T, c *core.Ctx, f *model.File, family string) {
 				e.EnumVals = append(e.EnumVals, jv.StrV(v))
 			}
 			return e
+		case "default":
+			// identical but for annotations: only the first gives the required host a default
+			host := &model.Node{Kind: model.KString}
+			if i == 0 {
+				dv := jv.StrV("localhost")
+				host.Default = &dv
+				host.Desc = "with a default"
+			}
+			return &model.Node{Kind: model.KObject, Props: []model.Prop{{Name: "host", Node: host}, {Name: "port", Node: &model.Node{Kind: model.KInteger}}}, Required: []string{"host", "port"}}
 		default: // required
 			req := [][]string{{"a"}, {"a", "b"}, {"b", "c"}}[i]
 			return &model.Node{Kind: model.KObject, Props: []model.Prop{
@@ -389,4 +400,136 @@ func countShapes(c *core.Ctx, f *model.File, cfg gen.Config) {
 			c.Count("option." + a)
 		}
 	}
+}
+
+// schemaURIs: "$schema" values of every draft (the tool does not read the keyword; stating it
+// must change nothing).
+var schemaURIs = []string{"", "", "http://json-schema.org/draft-04/schema#", "http://json-schema.org/draft-06/schema#",
+	"http://json-schema.org/draft-07/schema#", "https://json-schema.org/draft/2019-09/schema", "https://json-schema.org/draft/2020-12/schema"}
+
+// addMergeOverlayScenario: definition ZBase with one constrained property, a
+// property zstrict = allOf[$ref ZBase, {same property with ANOTHER keyword of the
+// family}] and a property zloose = plain $ref ZBase: the overlay must not leak
+// into the definition used on its own. family: "string" or "array". Returns
+// the root property names whose positions are judged (zloose only: what the
+// merged type does with overlapping branches is C11's open finding).
+func addMergeOverlayScenario(t *rapid.T, c *core.Ctx, f *model.File, family string) []string {
+	ip := func(v int) *int { return &v }
+	var baseProp, overlayProp *model.Node
+	switch family {
+	case "string":
+		baseProp = &model.Node{Kind: model.KString, MinLength: ip(2)}
+		overlayProp = &model.Node{Kind: model.KString, MaxLength: ip(5)}
+		if rapid.Bool().Draw(t, "overlaypattern") {
+			overlayProp = &model.Node{Kind: model.KString, Pattern: "^[a-z]+$"}
+		}
+	default:
+		baseProp = &model.Node{Kind: model.KArray, Items: &model.Node{Kind: model.KString}, MinItems: ip(2)}
+		overlayProp = &model.Node{Kind: model.KArray, Items: &model.Node{Kind: model.KString}, MaxItems: ip(4)}
+	}
+	base := &model.Node{Kind: model.KObject, Props: []model.Prop{{Name: "p", Node: baseProp}, {Name: "other", Node: &model.Node{Kind: model.KBoolean}}}, Required: []string{"p"}}
+	f.Defs = append(f.Defs, model.Def{Name: "ZBase", Node: base})
+	ref := func() *model.Node { return &model.Node{Kind: model.KRef, Ref: "#/$defs/ZBase", Target: base} }
+	overlay := &model.Node{Kind: model.KObject, Props: []model.Prop{{Name: "p", Node: overlayProp}}}
+	kind := model.KAllOf
+	if rapid.IntRange(0, 3).Draw(t, "overlayanyof") == 0 {
+		kind = model.KAnyOf
+		overlay.Required = []string{"p"}
+	}
+	// zstrict is named so that it is generated before ("a...") or after ("zz...") zloose
+	strictName := rapid.SampledFrom([]string{"astrict", "zzstrict"}).Draw(t, "overlayorder")
+	f.Root.Props = append(f.Root.Props,
+		model.Prop{Name: strictName, Node: &model.Node{Kind: kind, Branches: []*model.Node{ref(), overlay}}},
+		model.Prop{Name: "zloose", Node: ref()},
+		model.Prop{Name: "zlooselist", Node: &model.Node{Kind: model.KArray, Items: ref()}})
+	c.Count("shape.merge_overlay." + family + "." + kind.String())
+	return []string{"zloose", "zlooselist"}
+}
+
+// scenarioOnlyJobs: documents that carry nothing but the named (optional) root
+// properties plus whatever the root requires: valid ones at the boundaries and
+// the single-fault mutants below them.
+func scenarioOnlyJobs(t *rapid.T, c *core.Ctx, root *model.Node, props []string, kinds map[string]bool, o *docs.Opts) []core.Job {
+	var jobs []core.Job
+	want := map[string]bool{}
+	for _, p := range props {
+		want[p] = true
+	}
+	oo := *o
+	oo.AllProps = true
+	for k := 0; k < 3; k++ {
+		full, ok := docs.Valid(t, root, &oo)
+		if !ok {
+			continue
+		}
+		// drop the optional properties that are not part of the scenario
+		v := jv.ObjV()
+		for _, kv := range full.O {
+			if want[kv.K] || root.IsRequired(kv.K) {
+				v.O = append(v.O, kv)
+			}
+		}
+		if !oracle.Accepts(root, v) {
+			continue
+		}
+		jobs = append(jobs, core.Job{Type: progRoot, Op: "json", Doc: string(v.Marshal()), Expect: "accept", ExpectVal: expJSON(docs.Expect(root, v)), Label: "scenario:valid"})
+		c.Count("doc.scenario.valid")
+		// the same document with every array and string below the scenario properties stretched
+		// (an open-ended limit must stay open-ended)
+		var stretch func(x jv.V) jv.V
+		stretch = func(x jv.V) jv.V {
+			switch x.K {
+			case jv.Arr:
+				a := jv.V{K: jv.Arr}
+				for _, e := range x.A {
+					a.A = append(a.A, stretch(e))
+				}
+				for len(a.A) > 0 && len(a.A) < 7 {
+					a.A = append(a.A, a.A[0])
+				}
+				return a
+			case jv.Obj:
+				ob := jv.V{K: jv.Obj}
+				for _, kv := range x.O {
+					ob.O = append(ob.O, jv.KV{K: kv.K, V: stretch(kv.V)})
+				}
+				return ob
+			case jv.Str:
+				if len(x.S) > 0 && len(x.S) < 9 {
+					return jv.StrV(x.S + strings.Repeat(x.S[len(x.S)-1:], 9-len(x.S)))
+				}
+			}
+			return x
+		}
+		sv := jv.ObjV()
+		for _, kv := range v.O {
+			if want[kv.K] {
+				sv.O = append(sv.O, jv.KV{K: kv.K, V: stretch(kv.V)})
+			} else {
+				sv.O = append(sv.O, kv)
+			}
+		}
+		if oracle.Accepts(root, sv) && string(sv.Marshal()) != string(v.Marshal()) {
+			jobs = append(jobs, core.Job{Type: progRoot, Op: "json", Doc: string(sv.Marshal()), Expect: "accept", ExpectVal: expJSON(docs.Expect(root, sv)), Label: "scenario:valid-stretched"})
+			c.Count("doc.scenario.valid_stretched")
+		}
+		muts, _ := docs.Mutants(t, root, v, kinds, o)
+		n := 0
+		for i := range muts {
+			m := &muts[i]
+			under := false
+			for _, p := range props {
+				if m.Path == "/"+p || strings.HasPrefix(m.Path, "/"+p+"/") {
+					under = true
+				}
+			}
+			if !under || n >= 60 {
+				continue
+			}
+			n++
+			jobs = append(jobs, core.Job{Type: progRoot, Op: "json", Doc: string(m.Doc.Marshal()), Expect: "reject", Rule: m.Rule() + "@" + m.Path, Label: "scenario:" + strings.SplitN(m.Label, "<-", 2)[0]})
+			c.Count("doc.scenario.reject")
+		}
+	}
+	return jobs
 }
